@@ -30,7 +30,7 @@ func restoreChannel(db sortedkv.Database, id channel.ID) (v chanView) {
 	}()
 	ch, err := keyvalue.NewPersistRestorer(db).RestoreChannel(bg, id)
 	if err != nil {
-		return chanView{err: err.Error(), notFound: strings.Contains(err.Error(), "could not find channel")}
+		return chanView{err: err.Error(), notFound: strings.Contains(err.Error(), "could not find channel") || !mentions(db, id)}
 	}
 	s := restoredSnap(ch)
 	return chanView{snap: &s}
@@ -336,4 +336,15 @@ func (c *Ctx) randomOp(forward int) Op {
 		}
 	}
 	return o
+}
+
+// mentions reports whether any key of the store contains the channel id: when none does, a failed
+// RestoreChannel means "no such channel" whatever the wording of its error.
+func mentions(db sortedkv.Database, id channel.ID) bool {
+	for _, k := range rawKeys(db) {
+		if strings.Contains(k, string(id[:])) {
+			return true
+		}
+	}
+	return false
 }
